@@ -5,7 +5,7 @@ use basset::reward::{ExecuteMsg, InstantiateMsg};
 use basset_sei_reward::contract::{execute, instantiate};
 use basset_sei_reward::state::{read_holder, read_state};
 use cosmwasm_std::testing::{mock_env, mock_info, MockApi, MockStorage};
-use cosmwasm_std::{from_json, to_json_binary, Api, BalanceResponse, BankMsg, BankQuery, Coin, ContractResult, CosmosMsg, Empty, OwnedDeps, Querier, QuerierResult, QueryRequest,
+use cosmwasm_std::{AllBalanceResponse, WasmMsg, from_json, to_json_binary, Api, BalanceResponse, BankMsg, BankQuery, Coin, ContractResult, CosmosMsg, Empty, OwnedDeps, Querier, QuerierResult, QueryRequest,
     SystemError, SystemResult, Uint128, Uint256, WasmQuery};
 use serde_json::{json, Value};
 use std::collections::BTreeMap;
@@ -21,6 +21,10 @@ impl Querier for RWorld {
             QueryRequest::Bank(BankQuery::Balance { denom, .. }) => {
                 let amount = if denom == DENOM { self.bank } else { 0 };
                 SystemResult::Ok(ContractResult::Ok(to_json_binary(&BalanceResponse { amount: Coin { denom, amount: Uint128::new(amount) } }).unwrap()))
+            }
+            QueryRequest::Bank(BankQuery::AllBalances { .. }) => {
+                let coins = if self.bank > 0 { vec![Coin { denom: DENOM.to_string(), amount: Uint128::new(self.bank) }] } else { vec![] };
+                SystemResult::Ok(ContractResult::Ok(to_json_binary(&AllBalanceResponse { amount: coins }).unwrap()))
             }
             QueryRequest::Wasm(WasmQuery::Smart { contract_addr, .. }) if contract_addr == "hub" => {
                 let c = basset::hub::ConfigResponse { owner: "owner".into(), update_reward_index_addr: "updater".into(), reward_dispatcher_contract: Some("dispatcher".into()),
@@ -43,7 +47,9 @@ impl Driver for RewardWorld {
         let mut ops = vec![];
         for _ in 0..n {
             let who = rng.next() % holders; let other = rng.next() % holders;
-            ops.push(match rng.next() % 9 {
+            ops.push(match rng.next() % 11 {
+                9 => json!({"op": "reconfig", "same_denom": rng.next() % 2 == 0}),
+                10 => json!({"op": "swap"}),
                 0 | 1 => json!({"op": "inc", "who": who, "amt": (1 + rng.amount(cap)).to_string()}),
                 2 => json!({"op": "dec", "who": who, "frac": rng.next() % 5}),
                 3 | 4 => json!({"op": "deliver", "amt": rng.amount(cap).to_string()}),
@@ -93,6 +99,22 @@ impl Driver for RewardWorld {
                         let delivered = deps.querier.bank - recorded;
                         for h in 0..hn { ideal[h] += Uint256::from(delivered) * Uint256::from(tok[h]) * Uint256::from(E18) / Uint256::from(total); }
                         recorded = deps.querier.bank; updates += 1;
+                    }
+                }
+                "reconfig" => {
+                    // the owner re-sends the configuration (possibly naming the reward denom already in use): nothing about the pool may change
+                    let rd = if op["same_denom"].as_bool().unwrap_or(false) { Some(DENOM.to_string()) } else { None };
+                    let r = execute(deps.as_mut(), mock_env(), mock_info("owner", &[]), ExecuteMsg::UpdateConfig { hub_contract: None, reward_denom: rd, swap_contract: None });
+                    and(&mut c, "rw#C20.owner_update_accepted", r.is_ok());
+                }
+                "swap" => {
+                    // the dispatcher asks the reward contract to swap stray coins into the reward denom: the reward coin itself must stay
+                    let r = execute(deps.as_mut(), mock_env(), mock_info("dispatcher", &[]), ExecuteMsg::SwapToRewardDenom {});
+                    if let Ok(resp) = r {
+                        for m in resp.messages.iter() {
+                            if let CosmosMsg::Wasm(WasmMsg::Execute { funds, .. }) = &m.msg { for f in funds { if f.denom == DENOM { deps.querier.bank = deps.querier.bank.saturating_sub(f.amount.u128()); } } }
+                            if let CosmosMsg::Bank(BankMsg::Send { amount, .. }) = &m.msg { for f in amount { if f.denom == DENOM { deps.querier.bank = deps.querier.bank.saturating_sub(f.amount.u128()); } } }
+                        }
                     }
                 }
                 "claim" => {
